@@ -474,7 +474,12 @@ func (mbox *MailboxView) staticNumSet(numSet imap.NumSet) imap.NumSet {
 			staticNumRange(&r.Start, &r.Stop, max)
 		}
 	case imap.UIDSet:
+		// "*" is the UID of the last message in the mailbox, which is lower
+		// than uidNext-1 once the last message has been expunged
 		max := uint32(mbox.uidNext) - 1
+		if len(mbox.l) > 0 {
+			max = uint32(mbox.l[len(mbox.l)-1].uid)
+		}
 		for i := range numSet {
 			r := &numSet[i]
 			staticNumRange((*uint32)(&r.Start), (*uint32)(&r.Stop), max)
